@@ -1167,6 +1167,8 @@ public:
         bool isStd = isA(s, s.inflight.tinfo, gaddrByName("_ZTISt9exception"));
         st.uncaught[tn]++;
         if (!isStd) throw MemFault("uncaught non-std exception " + tn);
+        // a std::exception that leaves the harness ends the path before its remaining assertions: reported, so that no harness loses paths silently
+        reportViolation(s, "uncaught", tn, "std::exception left the harness", nullptr);
         return "uncaught std::exception";
     }
     const char* exec(State& s)
